@@ -313,6 +313,12 @@ type Op struct {
 	store *recStore
 	qcfg  *qbft.Config
 	share *spectypes.Share
+	// Armed is the operator's round timer: what the last TimeoutForRound call armed it for (a new
+	// call replaces the previous one, as roundtimer.RoundTimer does); HasTimer is false once it has
+	// fired and nothing re-armed it. A timeout event carries the armed height and round, the way
+	// validator.onTimeout builds it.
+	Armed    Arm
+	HasTimer bool
 }
 
 // keySigner signs QBFT roots with the operator's share key under the configuration's domain
@@ -378,6 +384,7 @@ func CloneState(s *specqbft.State) *specqbft.State {
 func (o *Op) clone(c *Cfg) *Op {
 	n := newOp(c, o.ID, o.share)
 	n.Ctrl.Height = o.Ctrl.Height
+	n.Armed, n.HasTimer = o.Armed, o.HasTimer
 	n.Ctrl.StoredInstances = make(controller.InstanceContainer, 0, cap(o.Ctrl.StoredInstances))
 	for _, inst := range o.Ctrl.StoredInstances {
 		ni := instance.NewInstance(n.qcfg, o.share, c.Identifier, inst.State.Height)
@@ -389,6 +396,12 @@ func (o *Op) clone(c *Cfg) *Op {
 		n.Ctrl.StoredInstances = append(n.Ctrl.StoredInstances, ni)
 	}
 	return n
+}
+
+// CanTimeout: the operator's round timer is armed and the round bound of the configuration lets
+// it move on.
+func (o *Op) CanTimeout(c *Cfg) bool {
+	return o.HasTimer && o.Inst(c.Height).State.Round < c.MaxRound
 }
 
 // ---- world ----
@@ -519,6 +532,9 @@ func (w *World) collect(o *Op, r Report) Report {
 	}
 	o.net.out = o.net.out[:0]
 	r.Arms = append(r.Arms, o.tm.arms...)
+	if n := len(o.tm.arms); n > 0 {
+		o.Armed, o.HasTimer = o.tm.arms[n-1], true
+	}
 	o.tm.arms = o.tm.arms[:0]
 	r.Saves = append(r.Saves, o.store.saves...)
 	o.store.saves = o.store.saves[:0]
@@ -565,7 +581,7 @@ func (w *World) Default() (Event, bool) {
 		return Event{Kind: Deliver, To: w.Pending[0].To, Msg: w.Pending[0].Msg}, true
 	}
 	for _, o := range w.Undecided() {
-		if o.Inst(w.C.Height).State.Round < w.C.MaxRound {
+		if o.CanTimeout(w.C) {
 			return Event{Kind: TimeoutAll}, true
 		}
 	}
@@ -590,7 +606,7 @@ func (w *World) Deviations() []Event {
 		}
 	}
 	for _, o := range w.Undecided() {
-		if o.Inst(w.C.Height).State.Round < w.C.MaxRound {
+		if o.CanTimeout(w.C) {
 			out = append(out, Event{Kind: Timeout, To: o.ID})
 		}
 	}
@@ -645,7 +661,9 @@ func (w *World) timeout(o *Op, ev Event) Report {
 	inst := o.Inst(w.C.Height)
 	r.WasDecided, r.RoundPrev = inst.State.Decided, inst.State.Round
 	delete(w.Isolated, o.ID)
-	r.Err = o.Ctrl.OnTimeout(Log, timeoutEvent(w.C.Height, inst.State.Round))
+	a := o.Armed
+	o.HasTimer = false
+	r.Err = o.Ctrl.OnTimeout(Log, timeoutEvent(a.Height, a.Round))
 	return w.collect(o, r)
 }
 
@@ -683,7 +701,7 @@ func (w *World) Apply(ev Event) []Report {
 		reps = append(reps, w.timeout(w.Op(ev.To), ev))
 	case TimeoutAll:
 		for _, o := range w.Undecided() {
-			if o.Inst(w.C.Height).State.Round < w.C.MaxRound {
+			if o.CanTimeout(w.C) {
 				reps = append(reps, w.timeout(o, ev))
 			}
 		}
@@ -783,6 +801,11 @@ func (w *World) Hash(extra []byte) [32]byte {
 	for _, o := range w.Ops {
 		putU(&b, uint64(o.ID))
 		putU(&b, uint64(o.Ctrl.Height))
+		if o.HasTimer {
+			putU(&b, uint64(o.Armed.Height)<<16|uint64(o.Armed.Round))
+		} else {
+			putU(&b, ^uint64(0))
+		}
 		putU(&b, uint64(len(o.Ctrl.StoredInstances)))
 		for _, inst := range o.Ctrl.StoredInstances {
 			w.HashState(&b, inst.State, inst.StartValue, inst.CanProcessMessages())
